@@ -225,7 +225,29 @@ static void run_case(Tape &t, Ctx &cx)
         for (uint8_t c : msg) { if (c < 0x30 || c > 0x39) { outside_digits = true; } }
         if (n >= 2 && outside_digits && init) { cx.rep->nontrivial = true; }
         Table T;
-        memset(&T, 0xEE, sizeof(T));
+        // the caller's table buffer is never fresh: a byte pattern, zeros, the table of the other bit order, or the right table
+        // with every entry but a few damaged - init has to overwrite all 256 entries whatever it finds
+        switch ((h >> 2) % 4)
+        {
+        case 0: memset(&T, 0xEE, sizeof(T)); break;
+        case 1: memset(&T, 0, sizeof(T)); break;
+        case 2: memset(&T, 0xEE, sizeof(T)); init_table(w, !lsb, T, poly); break;
+        default:
+            memset(&T, 0xEE, sizeof(T));
+            init_table(w, lsb, T, poly);
+            for (unsigned i = 2; i < 256; ++i)
+            {
+                if (i == 0x80) { continue; }
+                switch (w)
+                {
+                case 8: T.t8[i] ^= 0x5A; break;
+                case 16: T.t16[i] ^= 0x5A5A; break;
+                case 32: T.t32[i] ^= 0x5A5A5A5Au; break;
+                default: T.t64[i] ^= 0x5A5A5A5A5A5A5A5Aull; break;
+                }
+            }
+            break;
+        }
         init_table(w, lsb, T, poly);
         // table entry = CRC of the single byte with zero initial value
         for (unsigned i = 0; i < 256; ++i)
@@ -262,6 +284,7 @@ static void run_case(Tape &t, Ctx &cx)
         // the two bit orders are related by reflection of polynomial (done by *_init), data and value
         {
             Table T2;
+            memset(&T2, 0xEE, sizeof(T2)); // (deterministic starting contents)
             init_table(w, !lsb, T2, poly);
             std::vector<uint8_t> rm(n);
             for (size_t i = 0; i < n; ++i) { rm[i] = uint8_t(ref_rev(msg[i], 8)); }
@@ -366,6 +389,7 @@ extern "C" int vp_enum(unsigned shard, unsigned nshards, int tier, vp_enum_stats
     {
         uint64_t whole = 0, parts = 0;
         Table T;
+        memset(&T, 0xEE, sizeof(T));
         if (item < 7)
         {
             static int const wd[] = {8, 16, 16, 32, 32, 64, 64};
